@@ -466,4 +466,224 @@ def statesDiffer2 (c1 c2 : Circuit) : Bool :=
   | some t1, some t2 => !sameState2 t1 t2 && !sameState2 t1 (swapQubits t2)
   | _, _ => false
 
+/-! ## Part 6: equal wire sequences = equal up to exchanging neighbouring operations on disjoint registers -/
+
+/-- the two operations share no quantum register -/
+def disjointOps (a b : Op) : Bool := a.qRegs.all fun q => !b.qRegs.contains q
+
+/-- the operation acts on quantum register `q` -/
+def onReg (q : QReg) (o : Op) : Bool := o.qRegs.contains q
+
+/-- equivalence generated by exchanging two neighbouring operations that share no quantum register (operations on
+    disjoint registers commute, so equivalent lists compile to the same state) -/
+inductive SwapEquiv : List Op → List Op → Prop
+  | refl (l : List Op) : SwapEquiv l l
+  | swap (pre : List Op) (a b : Op) (post : List Op) (h : disjointOps a b = true) :
+      SwapEquiv (pre ++ a :: b :: post) (pre ++ b :: a :: post)
+  | trans {l1 l2 l3 : List Op} : SwapEquiv l1 l2 → SwapEquiv l2 l3 → SwapEquiv l1 l3
+
+theorem SwapEquiv.cons (a : Op) {l1 l2 : List Op} (h : SwapEquiv l1 l2) : SwapEquiv (a :: l1) (a :: l2) := by
+  induction h with
+  | refl l => exact .refl _
+  | swap pre x y post hd => exact .swap (a :: pre) x y post hd
+  | trans _ _ ih1 ih2 => exact .trans ih1 ih2
+
+theorem disjointOps_symm (a b : Op) (h : disjointOps a b = true) : disjointOps b a = true := by
+  unfold disjointOps at *
+  simp only [List.all_eq_true, Bool.not_eq_true', List.contains_eq_mem, decide_eq_false_iff_not] at *
+  intro q hq hqa
+  exact h q hqa hq
+
+/-- an operation that is disjoint from everything before it can be moved to the front -/
+theorem moveFront (pre : List Op) (a : Op) (post : List Op) (h : ∀ b ∈ pre, disjointOps b a = true) :
+    SwapEquiv (pre ++ a :: post) (a :: pre ++ post) := by
+  induction pre with
+  | nil => exact .refl _
+  | cons b rest ih =>
+    have h1 : SwapEquiv (b :: (rest ++ a :: post)) (b :: (a :: rest ++ post)) :=
+      SwapEquiv.cons b (ih (fun x hx => h x (by simp [hx])))
+    have h2 : SwapEquiv ([] ++ b :: a :: (rest ++ post)) ([] ++ a :: b :: (rest ++ post)) :=
+      .swap [] b a (rest ++ post) (h b (by simp))
+    exact .trans h1 h2
+
+theorem filter_onReg_disjoint (pre : List Op) (a : Op) (q : QReg) (hq : onReg q a = true)
+    (h : ∀ b ∈ pre, disjointOps b a = true) : pre.filter (onReg q) = [] := by
+  rw [List.filter_eq_nil_iff]
+  intro b hb hbq
+  have := h b hb
+  unfold disjointOps at this
+  simp only [List.all_eq_true, Bool.not_eq_true', List.contains_eq_mem, decide_eq_false_iff_not] at this
+  unfold onReg at hq hbq
+  simp only [List.contains_eq_mem, decide_eq_true_eq] at hq hbq
+  exact this q hbq hq
+
+theorem all_false_exists (l : List QReg) (p : QReg → Bool) (h : l.all p = false) : ∃ q, q ∈ l ∧ p q = false := by
+  induction l with
+  | nil => simp at h
+  | cons q rest ih =>
+    simp only [List.all_cons, Bool.and_eq_false_iff] at h
+    rcases h with h | h
+    · exact ⟨q, by simp, h⟩
+    · obtain ⟨q', h1, h2⟩ := ih h
+      exact ⟨q', by simp [h1], h2⟩
+
+theorem disjointOps_false (b a : Op) (h : disjointOps b a = false) : ∃ q, q ∈ b.qRegs ∧ q ∈ a.qRegs := by
+  obtain ⟨q, h1, h2⟩ := all_false_exists _ _ h
+  exact ⟨q, h1, by simpa using h2⟩
+
+/-- split a list at its first operation that shares a register with `a` -/
+theorem split_first_touching (a : Op) (l : List Op) (h : ∃ b ∈ l, disjointOps b a = false) :
+    ∃ pre b post, l = pre ++ b :: post ∧ (∀ x ∈ pre, disjointOps x a = true) ∧ disjointOps b a = false := by
+  induction l with
+  | nil => obtain ⟨b, hb, _⟩ := h; cases hb
+  | cons x rest ih =>
+    by_cases hx : disjointOps x a = true
+    · have : ∃ b ∈ rest, disjointOps b a = false := by
+        obtain ⟨b, hb, hd⟩ := h
+        rcases List.mem_cons.1 hb with rfl | hb
+        · rw [hx] at hd; cases hd
+        · exact ⟨b, hb, hd⟩
+      obtain ⟨pre, b, post, he, hp, hb⟩ := ih this
+      refine ⟨x :: pre, b, post, by simp [he], ?_, hb⟩
+      intro y hy
+      rcases List.mem_cons.1 hy with rfl | hy
+      · exact hx
+      · exact hp y hy
+    · exact ⟨[], x, rest, rfl, fun y hy => absurd hy (List.not_mem_nil), by simpa using hx⟩
+
+/-- **wire sequences determine the circuit up to commuting exchanges**: if every operation acts on at least one quantum
+    register and the two lists have the same subsequence on every quantum register, they are `SwapEquiv` -/
+theorem swapEquiv_of_wires (l1 l2 : List Op) (hne1 : ∀ o ∈ l1, o.qRegs ≠ [])
+    (hw : ∀ q, l1.filter (onReg q) = l2.filter (onReg q)) (hlen : l1.length = l2.length) : SwapEquiv l1 l2 := by
+  induction l1 generalizing l2 with
+  | nil =>
+    cases l2 with
+    | nil => exact .refl _
+    | cons _ _ => simp at hlen
+  | cons a rest ih =>
+    -- a register of `a`
+    obtain ⟨q0, hq0⟩ : ∃ q0, q0 ∈ a.qRegs := by
+      cases hqs : a.qRegs with
+      | nil => exact absurd hqs (hne1 a (by simp))
+      | cons q _ => exact ⟨q, by simp⟩
+    have hq0' : onReg q0 a = true := by unfold onReg; simpa using hq0
+    -- `l2` contains an operation on `q0`
+    have hex : ∃ b ∈ l2, disjointOps b a = false := by
+      have h0 := hw q0
+      simp only [List.filter_cons, hq0', if_true] at h0
+      have hmem : a ∈ l2.filter (onReg q0) := by rw [← h0]; simp
+      refine ⟨a, (List.mem_filter.1 hmem).1, ?_⟩
+      unfold disjointOps
+      apply Bool.eq_false_iff.2
+      intro hall
+      simp only [List.all_eq_true, Bool.not_eq_true', List.contains_eq_mem, decide_eq_false_iff_not] at hall
+      exact hall q0 hq0 hq0
+    obtain ⟨pre, b, post, he, hpre, hb⟩ := split_first_touching a l2 hex
+    subst he
+    -- `b` shares a register `q1` with `a`; on that wire `a` is first in `l1` and `b` is first in `l2`
+    obtain ⟨q1, hq1b, hq1a⟩ := disjointOps_false b a hb
+    have hq1a' : onReg q1 a = true := by unfold onReg; simpa using hq1a
+    have hq1b' : onReg q1 b = true := by unfold onReg; simpa using hq1b
+    have hba : b = a := by
+      have h1 := hw q1
+      rw [List.filter_append, filter_onReg_disjoint pre a q1 hq1a' hpre] at h1
+      simp only [List.filter_cons, hq1a', hq1b', if_true, List.nil_append] at h1
+      injection h1 with h1 _
+      exact h1.symm
+    subst hba
+    -- the remaining lists still agree on every wire
+    have hw' : ∀ q, rest.filter (onReg q) = (pre ++ post).filter (onReg q) := by
+      intro q
+      have h1 := hw q
+      rw [List.filter_append] at h1
+      rw [List.filter_append]
+      by_cases hqa : onReg q b = true
+      · rw [filter_onReg_disjoint pre b q hqa hpre] at h1 ⊢
+        simp only [List.filter_cons, hqa, if_true, List.nil_append] at h1
+        simpa using h1
+      · simp only [List.filter_cons, hqa] at h1
+        simpa using h1
+    have hlen' : rest.length = (pre ++ post).length := by
+      simp only [List.length_cons, List.length_append] at hlen ⊢
+      omega
+    have h1 : SwapEquiv (b :: rest) (b :: (pre ++ post)) :=
+      SwapEquiv.cons b (ih (pre ++ post) (fun o ho => hne1 o (by simp [ho])) hw' hlen')
+    have h2 : SwapEquiv (pre ++ b :: post) (b :: pre ++ post) := moveFront pre b post hpre
+    exact .trans h1 (swapEquiv_symm h2)
+where
+  swapEquiv_symm {x y : List Op} (h : SwapEquiv x y) : SwapEquiv y x := by
+    induction h with
+    | refl l => exact .refl _
+    | swap pre a b post hd => exact .swap pre b a post (disjointOps_symm a b hd)
+    | trans _ _ ih1 ih2 => exact .trans ih2 ih1
+
+theorem qRegs_ne_nil (o : Op) : o.qRegs ≠ [] := by cases o <;> simp [Op.qRegs]
+
+theorem dropC_qRegs (o : Op) : (dropC o).qRegs = o.qRegs := by cases o <;> rfl
+
+theorem filter_map_dropC (l : List Op) (q : QReg) :
+    (l.map dropC).filter (onReg q) = (l.filter (fun o => o.qRegs.contains q)).map dropC := by
+  induction l with
+  | nil => rfl
+  | cons o rest ih =>
+    simp only [List.map_cons, List.filter_cons, onReg, dropC_qRegs]
+    split <;> simp [ih]
+
+theorem mem_qregsOf (c : Circuit) (q : QReg) : q ∈ qregsOf c ↔ q.i < c.nOf q.t := by
+  unfold qregsOf Circuit.nOf
+  cases q with | mk t i =>
+  cases t <;> simp
+
+/-- unwrapping keeps the registers in range -/
+theorem flat_inRange (c : Circuit) (ops : List Op) (h : ∀ op ∈ ops, InRange c op) : ∀ o ∈ flat ops, ∀ q ∈ o.qRegs, q ∈ qregsOf c := by
+  intro o ho q hq
+  unfold flat at ho
+  obtain ⟨hm, _⟩ := List.mem_filter.1 ho
+  obtain ⟨op, hop, hu⟩ := List.mem_flatMap.1 hm
+  have hr := (h op hop).1
+  rw [mem_qregsOf]
+  cases op with
+  | wrap gs q' =>
+    simp only [Op.unwrap, List.mem_map] at hu
+    obtain ⟨g, _, rfl⟩ := hu
+    simp only [Op.qRegs, List.mem_singleton] at hq
+    subst hq
+    exact hr q (by simp [Op.qRegs])
+  | one g q' => simp only [Op.unwrap, List.mem_singleton] at hu; subst hu; exact hr q hq
+  | ctrl g a b => simp only [Op.unwrap, List.mem_singleton] at hu; subst hu; exact hr q hq
+  | cctrl g a b cr => simp only [Op.unwrap, List.mem_singleton] at hu; subst hu; exact hr q hq
+  | meas q' cr => simp only [Op.unwrap, List.mem_singleton] at hu; subst hu; exact hr q hq
+
+/-- **`direct` reports equal ⇒ the two circuits are the same up to exchanging neighbouring operations on disjoint
+    registers** (and up to which classical register records an outcome) -/
+theorem directL_swapEquiv (c1 c2 : Circuit) (h1 : ∀ op ∈ c1.ops, InRange c1 op) (h2 : ∀ op ∈ c2.ops, InRange c2 op)
+    (h : directL c1 c2 = true) : SwapEquiv ((flat c1.ops).map dropC) ((flat c2.ops).map dropC) := by
+  have hw := directL_sound c1 c2 h
+  unfold wiresEq at hw
+  simp only [Bool.and_eq_true, beq_iff_eq, List.all_eq_true] at hw
+  obtain ⟨⟨⟨hne, hnp⟩, hnc⟩, hwires⟩ := hw
+  have hlen : (flat c1.ops).length = (flat c2.ops).length := by
+    unfold directL at h
+    simp only [Bool.and_eq_true, beq_iff_eq] at h
+    exact h.1.2
+  have hq2 : qregsOf c2 = qregsOf c1 := by unfold qregsOf; rw [hne, hnp]
+  apply swapEquiv_of_wires
+  · intro o ho
+    obtain ⟨o', _, rfl⟩ := List.mem_map.1 ho
+    rw [dropC_qRegs]; exact qRegs_ne_nil o'
+  · intro q
+    rw [filter_map_dropC, filter_map_dropC]
+    by_cases hq : q ∈ qregsOf c1
+    · exact hwires q hq
+    · have e1 : (flat c1.ops).filter (fun o => o.qRegs.contains q) = [] := by
+        rw [List.filter_eq_nil_iff]
+        intro o ho hc
+        exact hq (flat_inRange c1 c1.ops h1 o ho q (by simpa using hc))
+      have e2 : (flat c2.ops).filter (fun o => o.qRegs.contains q) = [] := by
+        rw [List.filter_eq_nil_iff]
+        intro o ho hc
+        exact hq (hq2 ▸ flat_inRange c2 c2.ops h2 o ho q (by simpa using hc))
+      rw [e1, e2]
+  · simp [hlen]
+
 end Graphiq.Compare
